@@ -201,7 +201,9 @@ class Publish:
         assert self._servermap.get_last_update()[0] in (MODE_WRITE, MODE_CHECK, MODE_REPAIR)
         # we will push a version that is one larger than anything present
         # in the grid, according to the servermap.
-        self._new_seqnum = self._servermap.highest_seqnum() + 1
+        self._new_seqnum = max(self._servermap.highest_seqnum(),
+                               getattr(self._node, "_highest_seqnum_used", 0)) + 1
+        self._node._highest_seqnum_used = self._new_seqnum
         self._status.set_servermap(self._servermap)
 
         self.log(format="new seqnum will be %(seqnum)d",
@@ -398,12 +400,14 @@ class Publish:
             assert self._servermap.get_last_update()[0] in (MODE_WRITE, MODE_CHECK, MODE_REPAIR)
             # we will push a version that is one larger than anything present
             # in the grid, according to the servermap.
-            self._new_seqnum = self._servermap.highest_seqnum() + 1
+            self._new_seqnum = max(self._servermap.highest_seqnum(),
+                                   getattr(self._node, "_highest_seqnum_used", 0)) + 1
         else:
             # If we don't have a servermap, that's because we're doing the
             # initial publish
             self._new_seqnum = 1
             self._servermap = ServerMap()
+        self._node._highest_seqnum_used = self._new_seqnum
         self._status.set_servermap(self._servermap)
 
         self.log(format="new seqnum will be %(seqnum)d",
